@@ -1363,6 +1363,13 @@ class PEval:
                     if name == 'emplace_back' and len(vals) == 2 and 'basic_string' in (dtype(objn) or '') and isinstance(vals[0], int) and isinstance(vals[1], int):
                         obj.items.append(Str(bytes([vals[1] & 0xFF]) * vals[0]))
                         return obj.items[-1]
+                    if name == 'emplace_back' and len(vals) in (2, 3) and 'basic_string' in (dtype(objn) or '') and isinstance(vals[0], Str) and all(isinstance(v_, int) for v_ in vals[1:]):
+                        # string(const string&, pos[, n]): the substring constructor
+                        if vals[1] > len(vals[0].b):
+                            raise Thrown(n, 'substring constructor position past the end (out_of_range)')
+                        cnt_ = vals[2] if len(vals) == 3 else None
+                        obj.items.append(Str(vals[0].b[vals[1]:] if cnt_ is None or cnt_ >= (1 << 63) else vals[0].b[vals[1]:vals[1] + cnt_]))
+                        return obj.items[-1]
                     if name == 'emplace_back' and not vals and 'basic_string' in (dtype(objn) or ''):
                         obj.items.append(Str())
                         return obj.items[-1]
